@@ -2887,28 +2887,32 @@ impl Node {
     pub fn forget_channel(&self, channel_id: &ChannelId) -> Result<(), Status> {
         let mut stub_found = false;
         let mut ready_forgotten = false;
-        // As per devrandom the lock order should be node_state -> channels -> channel
-        let mut node_state: MutexGuard<'_, NodeState> = self.get_state();
+        // Lock order: channels -> channel, and the node state only once the channel lock has
+        // been released.  Channel requests take the node state while they hold their channel
+        // lock (and channel_balance does so under the channels lock), so holding the node state
+        // while waiting for a channel would deadlock against them.
         let mut channels = self.get_channels();
         let found = channels.get(channel_id);
         if let Some(slot) = found {
-            // Acquire a lock on the node state to potentially update the high water mark.
-            // This is the only place the high water mark could be updated so any changes
-            // to the node state since acquiring the channels lock are irrelevant.
-            let channel = slot.lock().unwrap();
-            match &*channel {
-                ChannelSlot::Stub(_) => {
-                    info!("forget_channel stub {}", channel_id);
-                    // We can't update the channels map here as it's immutably borrowed
-                    // so we set a flag to remove it after the borrow is released.
-                    stub_found = true;
-                }
-                ChannelSlot::Ready(chan) => {
-                    info!("forget_channel {}", channel_id);
-                    chan.forget()?;
-                    ready_forgotten = true;
-                }
-            };
+            {
+                let channel = slot.lock().unwrap();
+                match &*channel {
+                    ChannelSlot::Stub(_) => {
+                        info!("forget_channel stub {}", channel_id);
+                        // We can't update the channels map here as it's immutably borrowed
+                        // so we set a flag to remove it after the borrow is released.
+                        stub_found = true;
+                    }
+                    ChannelSlot::Ready(chan) => {
+                        info!("forget_channel {}", channel_id);
+                        chan.forget()?;
+                        ready_forgotten = true;
+                    }
+                };
+            }
+            // This is the only place the high water mark is updated, and we still hold the
+            // channels lock, so concurrent changes to the node state are irrelevant.
+            let mut node_state: MutexGuard<'_, NodeState> = self.get_state();
             if channel_id.oid() > node_state.dbid_high_water_mark {
                 node_state.dbid_high_water_mark = channel_id.oid();
                 self.persister
@@ -2928,7 +2932,6 @@ impl Node {
             // The forget flag lives in the channel's monitor, which is persisted with the
             // tracker.  Release our locks first, the tracker lock comes before them.
             drop(channels);
-            drop(node_state);
             let tracker = self.get_tracker();
             self.persister
                 .update_tracker(&self.get_id(), &tracker)
